@@ -410,6 +410,10 @@ def SimpleRule.holds (r : SimpleRule) (m : Msg) : Bool :=
   (match r.path with | some v => m.path = some v | none => true) &&
   (match r.destination with | some v => m.dest = some v | none => true)
 
+/-- The attributes `SimpleRule.holds` compares, under the names `Rule.add` files them (`router.py`). -/
+def SimpleRule.evaluatedKeys : List Name :=
+  ["_messageType".toList, "interface".toList, "member".toList, "path".toList, "destination".toList]
+
 /-- The repaired code. -/
 def repaired : Cfg SimpleRule := { holds := SimpleRule.holds }
 /-- The code as it was before the repairs of F21 and F22. -/
